@@ -344,7 +344,7 @@ func init() {
 			nrand, per := 16, 15000
 			depth := 3
 			if tier == "thorough" {
-				nrand, per, depth = 32, 40000, 4
+				nrand, per, depth = 64, 100000, 4
 			}
 			for i := 0; i < nrand; i++ {
 				jobs = append(jobs, run.Job{Family: "random", Seed: seed*1000 + int64(i), N: per})
